@@ -4,6 +4,7 @@ package main
 // DD/FD mirror pairs (C11), fuzz (C12).
 
 import (
+	"strings"
 	"bufio"
 	"flag"
 	"fmt"
@@ -347,8 +348,15 @@ type runLog struct {
 	md        [][2]int
 }
 
-func runOnce(is *InitSpec, w *bufio.Writer) runLog {
+func runOnce(is *InitSpec, w *bufio.Writer) runLog { return runOnceSwap(is, w, 0) }
+
+// runOnceSwap: swapAt > 0 makes the memory a paging latch - its swapAt-th access of the Step replaces CPU.Memory by
+// another object with the same contents.  Accesses reaching the second object are logged with 65536 added to the
+// address, so the two forms must agree on which object saw which access.
+func runOnceSwap(is *InitSpec, w *bufio.Writer, swapAt int) runLog {
 	m := NewMachine(is)
+	old := m.Mem
+	nacc := 0
 	moved := 0
 	ix0, iy0 := uint16(is.R[16])<<8|uint16(is.R[17]), uint16(is.R[18])<<8|uint16(is.R[19])
 	first := -1
@@ -365,6 +373,10 @@ func runOnce(is *InitSpec, w *bufio.Writer) runLog {
 		if first == 0xfd && m.CPU.IX != ix0 {
 			moved = 1
 		}
+		nacc++
+		if swapAt > 0 && nacc == swapAt {
+			m.SwapMemory()
+		}
 	}
 	if w != nil {
 		EmitInit(w, is)
@@ -377,12 +389,25 @@ func runOnce(is *InitSpec, w *bufio.Writer) runLog {
 		m.CPU.Step()
 	}
 	l := runLog{pre: is.R, post: Regs(&m.CPU.States), halt: m.CPU.HALT, idxMoved: moved, pcs: pcs}
-	l.rd = append(l.rd, m.Mem.Rd...)
-	l.wr = append(l.wr, m.Mem.Wr...)
+	if m.Mem != old { // the latch fired: first what the first object saw, then the second one (addresses + 65536)
+		l.rd = append(l.rd, old.Rd...)
+		l.wr = append(l.wr, old.Wr...)
+		for _, a := range m.Mem.Rd {
+			l.rd = append(l.rd, a) // (uint16: the object is told apart by the marker below)
+		}
+		l.rd = append(l.rd, 0xffff, 0xffff, uint16(len(old.Rd)))
+		for _, x := range m.Mem.Wr {
+			l.wr = append(l.wr, [2]int{x[0] + 65536, x[1]})
+		}
+		l.md = append(old.Diff(), m.Mem.Diff()...)
+	} else {
+		l.rd = append(l.rd, m.Mem.Rd...)
+		l.wr = append(l.wr, m.Mem.Wr...)
+		l.md = m.Mem.Diff()
+	}
 	if m.IO != nil {
 		l.pio = append(l.pio, m.IO.Log...)
 	}
-	l.md = m.Mem.Diff()
 	return l
 }
 
@@ -413,7 +438,15 @@ func EmitPair(dd *InitSpec, w *bufio.Writer) {
 	fd2.R[16], fd2.R[17] = fd.R[16]^0x5a, fd.R[17]^0xa5
 	a2 := runOnce(&dd2, nil)
 	b2 := runOnce(&fd2, nil)
-	fmt.Fprintf(w, `{"e":"m","dd":%s,"fd":%s,"dd2":%s,"fd2":%s}`+"\n", a.json(), b.json(), a2.json(), b2.json())
+	// the same pair on a paging latch: the k-th access of the Step replaces CPU.Memory, for every k
+	var latch []string
+	for k := 1; k <= len(a.rd)+len(a.wr) && k <= 8; k++ {
+		a3 := runOnceSwap(dd, nil, k)
+		b3 := runOnceSwap(&fd, nil, k)
+		latch = append(latch, "["+a3.json()+","+b3.json()+"]")
+	}
+	fmt.Fprintf(w, `{"e":"m","dd":%s,"fd":%s,"dd2":%s,"fd2":%s,"latch":[%s]}`+"\n", a.json(), b.json(), a2.json(), b2.json(),
+		strings.Join(latch, ","))
 }
 
 func cmdPairs(args []string) {
